@@ -31,6 +31,7 @@ def hitsound_copy(osu_src: OsuMap, osu_tgt: OsuMap) -> OsuMap:
     ]
     df_src: pd.DataFrame
     df_src = df_src.sort_values("offset").reset_index(drop=True)
+    df_src["hitsound_set"] = df_src["hitsound_set"].astype(int)
 
     HS_CLAP = 2
     HS_FINISH = 4
